@@ -70,6 +70,12 @@ def run(pid, tier, args):
                     v.violation("Parseable root type: repeated ParseFromLexer over `a b c` gives [%s], expected [%s]" % (got, want), {"property": pid, "kind": "api-parseable", "real": got, "expected": want})
             for key, eps in calls.items():
                 ncases += 1
+                if key[0] in ("deep", "history"):
+                    outs = {ep: eps[ep] for ep in PARSE_EPS if ep in eps}
+                    if len(set(outs.values())) > 1:
+                        what = "a deeply nested input, with and without the Trace option" if key[0] == "deep" else "calls without options before and after a call with AllowTrailing(true) on the same parser"
+                        v.violation("%s (#%d): entry points disagree: %s" % (what, key[2], json.dumps(outs)[:500]), {"property": pid, "kind": "api-" + key[0], "calls": eps})
+                    continue
                 if key[0] == "textcfg":
                     # static parser over a configured text/scanner lexer: relational checks only
                     outs = {ep: eps[ep] for ep in PARSE_EPS if ep in eps}
